@@ -1479,6 +1479,49 @@ def rule_findbase_post(ctx):
            "configuration decodes its ceiling to max_count", okk,
            "" if okk else "the base found by the fixed number of Newton steps is returned unchecked: for num_reserved near the counter maximum "
                           "the iteration does not converge and the ceiling decodes to a value far from max_count without any error")
+    # unsigned subtractions inside the solver (and the helpers it calls) do not wrap: each `x - y` computed in integers is mapped to
+    # the constructor's call arguments and proved non-negative from what the constructor has validated at that point.  (A difference
+    # taken after converting both operands to float, as in float64(max_count) - float64(num_reserved), cannot wrap and is no event.)
+    fam = [(fb, {p: Lin.term(("param", p)) for p in fb.params})]
+    wfb = walk_kernel(F, fb) if fb.is_kernel else F.walk(fb)
+    for c in [e for e in wfb.events if e.kind == "call" and e.callee is not None and e.callee.is_kernel]:
+        m = {}
+        for pn, a in zip(c.callee.params, c.args):
+            if isinstance(a, Num) and all(t[0] == "param" for t in a.lin.terms()):
+                m[pn] = a.lin
+        if not any(c.callee.key == f.key for f, _ in fam):
+            fam.append((c.callee, m))
+    sub_sites = []
+    for f, pmap in fam:
+        wf = wfb if f is fb else (walk_kernel(F, f) if f.is_kernel else F.walk(f))
+        for g in group_by_node([e for e in wf.events if e.kind == "sub"]):
+            e = g[0]
+            ok_terms = all(t[0] == "param" and t[1] in pmap for t in list(e.a.lin.terms()) + list(e.b.lin.terms()))
+            if not ok_terms:
+                # operands that are not plain parameters: decided inside the function itself
+                pr = all(wf.P.prove_le0(x.b.lin - x.a.lin, x.facts) for x in g)
+                ctx.ob("findbase-post", f, e.node, src(f, e.node, 60), "unsigned subtraction in the base solver does not go below zero", True if pr else None,
+                       "" if pr else "operands are not parameters of %s; not decided" % f.name)
+                continue
+            d = e.b.lin - e.a.lin
+            for pn, repl in pmap.items():
+                d = d.subst(("param", pn), repl)
+            sub_sites.append((f, e, d))
+    for cls in F.classes(COUNTMIN[1:]):
+        ctor_ = F.ctor(cls)
+        wc = F.walk(ctor_)
+        for c in [e for e in wc.events if e.kind == "call" and e.name == fb.name]:
+            amap = {pn: a.lin for pn, a in zip(fb.params, c.args) if isinstance(a, Num)}
+            for f, e, d in sub_sites:
+                goal = d
+                for pn, repl in amap.items():
+                    goal = goal.subst(("param", pn), repl) if ("param", pn) in goal.terms() and repl != Lin.term(("param", pn)) else goal
+                pr = wc.P.prove_le0(goal, c.facts)
+                ctx.ob("findbase-post", f, e.node, "%s in %s, called from %s" % (src(f, e.node, 50), f.name, cls.name),
+                       "unsigned subtraction in the base solver does not go below zero for any configuration the constructor lets through", bool(pr),
+                       "" if pr else "%s computes `%s` in unsigned integers, and %s.__init__ has not established %s >= 0 when it calls %s: for such a configuration "
+                                     "the difference wraps to about 2**64 and a base with a far larger ceiling is accepted" % (
+                                         f.name, src(f, e.node, 50), cls.name, show_lin(-goal), fb.name), fact_strs(c))
     # the constructors pass (max_count, num_reserved, ceiling) and keep the result
     for cls in F.classes(COUNTMIN[1:]):
         for d in F.attr_defs(cls):
